@@ -379,6 +379,24 @@ pub fn gen_history14(rng: &mut Rng, unsound: bool) -> (Vec<Sx>, Vec<Sx>, String)
             }
         }
     }
+    // a class with parents (and grand-parents) is equated with a smaller fresh leaf, either way round: the surviving class's
+    // datum improves through the merge and its parents' data have to follow
+    if rng.chance(1, 2) {
+        let pool: Vec<u64> = vec![1, 2];
+        let dd = rng.range(1, 2); let t = crate::eg::gen_term(rng, dd, &pool);
+        let p1 = rt(6, vec![null_app()], vec![t.clone()]);
+        let p2 = if rng.chance(1, 2) { rt(6, vec![null_app()], vec![p1.clone()]) } else { rt(7, vec![null_app(), null_app()], vec![p1.clone(), t.clone()]) };
+        let leaf = rt(*rng.pick(&[3u64, 4]), vec![], vec![]);
+        let mut nadd = ops.iter().filter(|o| o.head() == "add").count() as u64;
+        let mut push_add = |x: Sx, terms: &mut Vec<Sx>, ops: &mut Vec<Sx>| -> u64 {
+            let k = match terms.iter().position(|y| *y == x) { Some(k) => k, None => { terms.push(x); terms.len() - 1 } };
+            ops.push(lst(vec![sym("add"), num(k as u64)])); nadd += 1; nadd - 1
+        };
+        push_add(p2, &mut terms, &mut ops);
+        let ht = push_add(t, &mut terms, &mut ops);
+        let hl = push_add(leaf, &mut terms, &mut ops);
+        if rng.chance(1, 2) { ops.push(lst(vec![sym("union"), num(ht), num(hl)])); } else { ops.push(lst(vec![sym("union"), num(hl), num(ht)])); }
+    }
     (terms, ops, motif)
 }
 
